@@ -67,7 +67,40 @@ func drawC10(t *rapid.T) caseC10 {
 		classes = []string{"k128"}
 	}
 	c.Data = gen.DrawRecipe(t, 3, 200000, classes...)
+	if rapid.IntRange(0, 7).Draw(t, "beyonddict") == 0 {
+		// more content than the dictionary of preset -0 (256 KiB) holds: the
+		// decoder's window wraps and hands out data in several rounds before
+		// a truncation or corruption is met; both formats, mostly decompression
+		c.Data = gen.Recipe{{Kind: "text", K: 26, Len: rapid.IntRange(300000, 700000).Draw(t, "bdlen"), Seed: rapid.Uint64().Draw(t, "bdseed")}}
+		c.Fmt = rapid.SampledFrom([]string{"xz", "lzma"}).Draw(t, "bdfmt")
+		if rapid.IntRange(0, 3).Draw(t, "bdop") > 0 {
+			c.Op = "decompress"
+			if !strings.HasSuffix(c.Name, "."+c.Fmt) {
+				c.Name = "big." + c.Fmt
+			}
+			c.Input = rapid.SampledFrom([]string{"valid", "trunc", "trunc", "bitflip"}).Draw(t, "bdinput")
+		} else {
+			c.Op, c.Name, c.Input = "compress", "big", "valid"
+		}
+	}
 	return c
+}
+
+// samplePoints bounds the cost of scenarios with many system calls: every
+// call among the first and last 40 and every step-th one in between.
+func samplePoints(calls []ptCall) map[int]bool {
+	keep := map[int]bool{}
+	n := len(calls)
+	step := 1
+	if n > 160 {
+		step = (n - 80) / 40
+	}
+	for i, cl := range calls {
+		if i < 40 || i >= n-40 || (i-40)%step == 0 {
+			keep[cl.K] = true
+		}
+	}
+	return keep
 }
 
 type ptCall struct {
@@ -402,9 +435,13 @@ func checkC10(c caseC10, rec *ev.Rec) *ev.Failure {
 			tmpCreated = cl.K
 		}
 	}
+	keep := samplePoints(base.Calls)
+	if len(keep) < len(base.Calls) {
+		rec.Class("points_sampled(>160 calls)")
+	}
 	// every mutating system call as a kill point
 	for _, cl := range base.Calls {
-		if !cl.Mut {
+		if !cl.Mut || !keep[cl.K] {
 			continue
 		}
 		if err := e.populate(dir); err != nil {
@@ -433,6 +470,9 @@ func checkC10(c caseC10, rec *ev.Rec) *ev.Failure {
 	}
 	// every listed system call as a fault point
 	for _, cl := range base.Calls {
+		if !keep[cl.K] {
+			continue
+		}
 		for _, en := range errnosFor(ptCall(cl)) {
 			if err := e.populate(dir); err != nil {
 				rec.Incomplete("populate: " + err.Error())
@@ -487,7 +527,7 @@ func checkC10(c caseC10, rec *ev.Rec) *ev.Failure {
 
 func TestC10(t *testing.T) {
 	rec := ev.New("C10", "fault_enumeration")
-	rec.Rule = "rapid draws a gxz scenario ({compress, decompress} x {xz, lzma} x subsets of {-k,-f,-c} x names with known / tar / unknown suffix x {valid, bit-flipped, truncated} input x target absent / present x a user file under the temporary name present / absent x content incl. > 64 KiB, plus a bystander file); the unmodified binary built from the tree runs under a ptrace tracer that numbers every system call touching the directory; per scenario: one undisturbed run, EVERY mutating call as a kill point (killed before it executes) and EVERY listed call as a fault point (ENOSPC/EIO/EACCES/EXDEV as fits), each on a fresh copy; oracle on the directory afterwards: input intact or complete output under a different final name; target name never holds a partial file; pre-existing target kept without -f; bystander and a user file under the temporary name untouched; not killed: no temporary file, exit != 0 => input intact, exit 0 => complete output (file or stdout) and input removed iff neither -k nor -c; corrupt / truncated / unknown-suffix / existing-target scenarios must fail; evaluations = traced runs; non-trivial = kill / fault at or after creation of the temporary file; distinct = hash(scenario, point)"
+	rec.Rule = "rapid draws a gxz scenario ({compress, decompress} x {xz, lzma} x subsets of {-k,-f,-c} x names with known / tar / unknown suffix x {valid, bit-flipped, truncated} input x target absent / present x a user file under the temporary name present / absent x content incl. > 64 KiB, plus a bystander file); the unmodified binary built from the tree runs under a ptrace tracer that numbers every system call touching the directory; per scenario: one undisturbed run, EVERY mutating call as a kill point (killed before it executes) and EVERY listed call as a fault point (scenarios with more than 160 calls: the first and last 40 and 40 evenly spaced ones) (ENOSPC/EIO/EACCES/EXDEV as fits), each on a fresh copy; oracle on the directory afterwards: input intact or complete output under a different final name; target name never holds a partial file; pre-existing target kept without -f; bystander and a user file under the temporary name untouched; not killed: no temporary file, exit != 0 => input intact, exit 0 => complete output (file or stdout) and input removed iff neither -k nor -c; corrupt / truncated / unknown-suffix / existing-target scenarios must fail; evaluations = traced runs; non-trivial = kill / fault at or after creation of the temporary file; distinct = hash(scenario, point)"
 	rec.Assumptions = []string{"a single system call is atomic; a kill inside a write equals a kill after a shorter write to the temporary file", "process kill, not power loss (gxz does not fsync)", "if ptrace is not permitted the check is inconclusive"}
 	drive(t, rec, drawC10, checkC10)
 }
